@@ -15,11 +15,83 @@ RULE = ("the shipped process-mode deployment (run_local_process_dcop) with the r
         "algorithms (all four graph models in DeployMessage) and resilient deployments "
         "(replication, removal, repair); every object is compared after decoding with a deep, "
         "type-sensitive comparison; non-trivial = >=20 messages compared, of >=4 distinct "
-        "message classes, across >=2 agents; distinct = SHA-256 of event log")
+        "message classes, across >=2 agents; 12% of the runs are 'catalogue' runs: a sequence of "
+        "10..30 instances of the message classes built with `message_type` in the shipped "
+        "modules (also those no run sends, e.g. NCBB's), with generated field values, encoded "
+        "and decoded one after the other in one interpreter (state kept between decodes is part "
+        "of the history); distinct = SHA-256 of event log")
+
+
+CATALOGUE_MODULES = ("pydcop.infrastructure.orchestrator", "pydcop.infrastructure.orchestratedagents",
+                     "pydcop.infrastructure.discovery", "pydcop.infrastructure.agents",
+                     "pydcop.infrastructure.computations", "pydcop.replication.dist_ucs_hostingcosts",
+                     "pydcop.reparation.removal") + tuple(
+    "pydcop.algorithms." + a for a in ("adsa", "amaxsum", "dba", "dpop", "dsa", "dsatuto", "gdba",
+                                       "maxsum", "mgm", "mgm2", "mixeddsa", "ncbb", "syncbb"))
+
+
+def catalogue():
+    """Every message class built with the `message_type` factory in the shipped modules:
+    {(module, attribute): (class, wire type name, fields)} — also the ones no simulated run
+    ever sends (NCBB's, which cannot run)."""
+    import importlib
+    from pydcop.infrastructure.computations import Message
+    found, seen = {}, set()
+    for mname in CATALOGUE_MODULES:
+        try:
+            mod = importlib.import_module(mname)
+        except Exception:
+            continue
+        for attr, obj in sorted(vars(mod).items()):
+            if not (isinstance(obj, type) and issubclass(obj, Message)):
+                continue
+            code = getattr(getattr(obj, "_simple_repr", None), "__code__", None)
+            if code is None or "fields" not in code.co_freevars or id(obj) in seen:
+                continue
+            seen.add(id(obj))
+            cells = dict(zip(code.co_freevars, obj._simple_repr.__closure__))
+            fields = list(cells["fields"].cell_contents)
+            found[(mname, attr)] = (obj, obj.__qualname__, fields)
+    return found
+
+
+def gen_value(rng, depth=0):
+    r = rng.random()
+    if r < 0.3:
+        return rng.randrange(-5, 100)
+    if r < 0.5:
+        return rng.choice(["a", "v1", "a0", "", "x y"])
+    if r < 0.6:
+        return rng.choice([True, False, None])
+    if r < 0.7:
+        return rng.randrange(-40, 41) / 4.0
+    if depth >= 2:
+        return 0
+    if r < 0.85:
+        return [gen_value(rng, depth + 1) for _ in range(rng.randint(0, 3))]
+    return {rng.choice(["a", "b", "v1", "c0"]): gen_value(rng, depth + 1)
+            for _ in range(rng.randint(0, 3))}
+
+
+def gen_catalogue(rng, tier):
+    cat = catalogue()
+    keys = sorted(cat)
+    by_type = collections.defaultdict(list)
+    for k in keys:
+        by_type[cat[k][1]].append(k)
+    shared = sorted(k for ks in by_type.values() if len(ks) > 1 for k in ks)
+    seq = []
+    for _ in range(rng.randint(10, 30)):
+        k = rng.choice(shared) if shared and rng.random() < 0.4 else rng.choice(keys)
+        seq.append([k[0], k[1], {f: gen_value(rng) for f in cat[k][2]}])
+    return {"workload": "catalogue", "algo": "none", "sequence": seq, "agents": [],
+            "objective": "min", "domains": {}, "variables": [], "constraints": []}
 
 
 def generate(rng, tier):
-    if rng.random() < 0.25:
+    if rng.random() < 0.12:
+        return gen_catalogue(rng, tier)
+    if rng.random() < 0.28:
         case = resilient.gen_resilient(rng, tier, n_agents=(3, 4), per_agent=(1, 1),
                                        algos=("dsa", "mgm", "maxsum"), tight=False, k_range=(1, 2),
                                        max_maxsum_vars=3)
@@ -140,7 +212,50 @@ class WireAudit:
         return None
 
 
+def execute_catalogue(case, tape):
+    """One 'process' decodes a sequence of messages of many classes, one after the other, with
+    what pyDcop's HTTP layer uses: simple_repr -> JSON text -> from_repr."""
+    import json
+    from pydcop.utils.simple_repr import simple_repr, from_repr
+    out = common.outcome()
+    feats = dict(algo="none", workload="catalogue")
+    out["subspace"] = "catalogue"
+    cat = catalogue()
+    audit = WireAudit([])
+    for mname, attr, values in case["sequence"]:
+        if (mname, attr) not in cat:
+            out["stats"]["catalogue_class_missing"] += 1
+            continue
+        cls, _, fields = cat[(mname, attr)]
+        msg = cls(**{f: values.get(f) for f in fields})
+        try:
+            text = json.dumps(simple_repr(msg), allow_nan=False)
+        except Exception as e:
+            audit("encode_error", msg, e, (mname, "catalogue"))
+            continue
+        try:
+            back = from_repr(json.loads(text))
+        except Exception as e:
+            audit("decode_error", msg, e, (mname, "catalogue"))
+            continue
+        audit("message", msg, back, (mname, "catalogue"))
+        if not audit.problems and (type(back).__qualname__ != type(msg).__qualname__ or
+                                   back.type != msg.type):
+            audit.problems.append(("decoded_equals_sent", f"{attr}: sent type {msg.type!r}, decoded "
+                                   f"{back.type!r}", {"msg_class": attr, "field": "type"}))
+    out["stats"]["messages_compared"] += audit.compared
+    out["stats"]["catalogue_runs"] += 1
+    out["steps"] = audit.compared
+    if audit.problems:
+        oracle, detail, extra = audit.problems[0]
+        out["violations"].append(common.violation(oracle, detail, **dict(feats, **extra)))
+    out["nontrivial"] = audit.compared >= 8 and len(audit.classes) >= 4
+    return out
+
+
 def execute(case, tape):
+    if case.get("workload") == "catalogue":
+        return execute_catalogue(case, tape)
     out = common.outcome()
     cfg = orch.sim_config(tape, preempt=False)
     feats = dict(algo=case["algo"], workload=case["workload"])
